@@ -6,13 +6,25 @@ func alpha(method string, args ...any) bool {
 	return ok
 }
 
-// publish makes epoch e's network map recognisable: one legacy node whose info carries e at byte 40.
+// emptyAt: the epoch whose legacy map is published EMPTY (0: none).
+var emptyAt int
+
+// publish makes epoch e's network map recognisable: one legacy node whose info carries e at byte 40. At the
+// epoch emptyAt the node is taken offline instead, so that tick publishes an empty map into its ring slot.
 func publish(e int) bool {
+	if e == emptyAt {
+		if e > 1 && !alpha("updateStateIR", 2, vKey("node")) {
+			return false
+		}
+		return alpha("newEpoch", e)
+	}
 	if !alpha("addPeerIR", vBlob("node", e)) {
 		return false
 	}
 	return alpha("newEpoch", e)
 }
+
+func isEmptyEpoch(ep int) bool { return ep == 0 || ep == emptyAt }
 
 // retained: is the map of epoch ep still stored after: count c0 since epoch 0, ticks up to e1, resize to c1
 // at e1, ticks up to e2?
@@ -30,10 +42,12 @@ func retained(ep, c0, e1, c1, e2 int) bool {
 // then symbolic queries through snapshot / snapshotByEpoch / listNodes.
 func VerifC08Resize() {
 	c0, t0, t1 := vParam(0), vParam(1), vParam(2)
+	emptyAt = vParam(4)
 	vDeploy("netmap", false, nil, nil, nil, []any{})
-	node := vAcct("node")
+	// the structured node has a key of its own: taking the legacy node offline (emptyAt) must not remove it
+	node := vAcct("node2")
 	vSign(node, true)
-	vAssume(alpha("addNode", []any{[]any{"addr"}, nil, vKey("node"), 1}))
+	vAssume(alpha("addNode", []any{[]any{"addr"}, nil, vKey("node2"), 1}))
 	if c0 != 10 {
 		vAssume(alpha("updateSnapshotCount", c0))
 	}
@@ -48,7 +62,7 @@ func VerifC08Resize() {
 		// a refused resize changes nothing: the current map is still the one of epoch t0
 		_, r := vRead("netmap", "netmap")
 		nodes := r.([]Node)
-		vAssert((t0 == 0 && len(nodes) == 0) || (t0 > 0 && len(nodes) == 1 && int(nodes[0].BLOB[40]) == t0), "C08/refused-resize-changes-nothing")
+		vAssert((isEmptyEpoch(t0) && len(nodes) == 0) || (!isEmptyEpoch(t0) && len(nodes) == 1 && int(nodes[0].BLOB[40]) == t0), "C08/refused-resize-changes-nothing")
 		return
 	}
 	vCover("resize-accepted")
@@ -86,7 +100,7 @@ func VerifC08Resize() {
 		vAssert(!okq || n == 0, "C08/snapshot-out-of-window-returns-nothing")
 	} else if retained(ep, c0, t0, c1, e2) {
 		vCover("retained-snapshot")
-		if ep == 0 {
+		if isEmptyEpoch(ep) {
 			vAssert(okq && n == 0, "C08/snapshot-recent-map-exact")
 		} else {
 			vAssert(okq && n == 1 && got == ep, "C08/snapshot-recent-map-exact")
@@ -109,7 +123,7 @@ func VerifC08Resize() {
 		}
 	}
 	if e2-q < c1 && retained(q, c0, t0, c1, e2) {
-		if q == 0 {
+		if isEmptyEpoch(q) {
 			vAssert(okq && n == 0, "C08/snapshotByEpoch-exact")
 		} else {
 			vCover("retained-by-epoch")
